@@ -21,6 +21,7 @@ def run(ctx):
     R.rule_render_fallible(ctx)
     R.rule_literal_escapes(ctx)
     R.rule_exists_parens(ctx)
+    R.rule_manifest_binder_group(ctx)
     R.rule_ctor_gap(ctx)
     R.rule_directive_bounds(ctx)
     ctx.assume("child-position requirements of the printer (term_through(child, P)) are NOT cross-checked against the grammar's "
